@@ -47,6 +47,9 @@ CONSTANTS
   CombineChecksRes,  \* FALSE: combined_layer as it is (res_range of the members is dropped)
   BestSrsFromList,   \* FALSE: preferred_src as it is (returns the SRS object of the rule, not the supported one)
   CombineChecksCodes,\* FALSE: _is_compatible as it is (supported_srs lists compared by SRS equality, not by code)
+  WritesSharedQuery, \* TRUE: as it was - _get_map assigns the supported spelling of the SRS to the MapQuery it was given, which
+                     \*   the following sources / layers of the request see (and race on, see SharedQuery.tla); FALSE: it works
+                     \*   on a query of its own
   MissingSrsListCrashes, \* TRUE: as it is - comparing a source without supported_srs with one that has raises
   MapCases,          \* sequence of sets of <<sequence of layer names, query>> explored by the model checker (WMS GetMap)
   CallCases          \* sequence of sets of <<source id, query>> explored by the model checker (get_map of one source,
@@ -317,7 +320,7 @@ Negotiate ==
   /\ pc = "negotiate"
   /\ LET c == Src[cur.m[1]]  neg == NegSrs(c, q) IN
        /\ cur' = [cur EXCEPT !.fmt = NegFormat(c, q), !.mode = neg.mode, !.srs = neg.srs]
-       /\ q' = IF neg.mode = "direct" THEN [q EXCEPT !.srs = neg.srs] ELSE q
+       /\ q' = IF WritesSharedQuery /\ neg.mode = "direct" THEN [q EXCEPT !.srs = neg.srs] ELSE q
   /\ pc' = "extent"
   /\ UNCHANGED <<todo, sent, outs, case>>
 
@@ -427,7 +430,7 @@ UnitOutcomes(u, qq) ==      \* set of [out, sent, q]
        ELSE IF HasCov(h) /\ ~CovMeets(h, qq) THEN {[out |-> "blank:cov", sent |-> <<>>, q |-> qq]}
        ELSE LET neg == NegSrs(c, qq)
                 q2  == IF neg.mode = "direct" THEN [qq EXCEPT !.srs = neg.srs] ELSE qq
-            IN {[out |-> r.out, sent |-> r.sent, q |-> q2] : r \in ExtentOutcomes(u, NegFormat(c, qq), neg, q2)}
+            IN {[out |-> r.out, sent |-> r.sent, q |-> IF WritesSharedQuery THEN q2 ELSE qq] : r \in ExtentOutcomes(u, NegFormat(c, qq), neg, q2)}
 
 RECURSIVE RunUnits(_, _)
 RunUnits(us, qq) ==
